@@ -454,15 +454,23 @@ static void run_case(char **lines, int n)
                     b = e + 1;
                 }
             }
-            {   /* one whole line `<id> C ...`: timers created while it is handled belong to that id */
-                long long idv;
-                size_t sp = 0;
+            {   /* one whole line announcing a client: timers created while it is handled belong to
+                 * that id.  The line is read the way iauth_read reads it: leading white space, an
+                 * optional sign and decimal digits (strtol), white space, then the command word. */
                 feeding_known = 0;
-                while (sp < len && data[sp] != ' ' && data[sp] != '\n') sp++;
-                if (len && data[len - 1] == '\n' && !memchr(data, '\n', len - 1) && sp + 2 < len && data[sp] == ' '
-                    && data[sp + 1] == 'C' && tr_decimal(data, sp, &idv)) {
-                    feeding_known = 1;
-                    feeding_client = tr_wrap32(idv);
+                if (len && data[len - 1] == '\n' && !memchr(data, '\n', len - 1) && !memchr(data, '\0', len)) {
+                    char *line = malloc(len), *sep;
+                    long idl;
+                    memcpy(line, data, len - 1);
+                    line[len - 1] = '\0';
+                    if (len >= 2 && line[len - 2] == '\r') line[len - 2] = '\0';
+                    idl = strtol(line, &sep, 10);
+                    while (*sep == ' ' || (*sep >= '\t' && *sep <= '\r')) sep++;
+                    if (sep[0] == 'C' && (sep[1] == ' ' || (sep[1] >= '\t' && sep[1] <= '\r'))) {
+                        feeding_known = 1;
+                        feeding_client = (int)idl;
+                    }
+                    free(line);
                 }
             }
             fprintf(rec, "");
